@@ -44,6 +44,7 @@ GROUPS = {
     "C14": [r"wkdibe::(adjust_precomputed|adjust_nondelegable|precompute|id_difference|resamplekey|encrypt_precomputed|sign_precomputed|verify_precomputed)"],
     "C15": [r"wkdibe::.*[Mm]arshal", r"wkdibe::.*(unmarshalledLength|marshalledLength|setLength)", r"lqibe::.*[Mm]arshal", r"uint32_swap_endianness", r"Fq12::read_big_endian", r"Fq12::write_big_endian"],
     "C16": [r"lqibe::(setup|keygen|encrypt|decrypt|compute_id_from_hash)"],
+    "C19": [r"^embedded_pairing_(bls12_381|wkdibe|lqibe|core)_"],
     "C17": [r"wkdibe::.*[Mm]arshal", r"wkdibe::.*(unmarshalledLength|marshalledLength|setLength)", r"lqibe::.*[Mm]arshal"],
 }
 
